@@ -13,7 +13,16 @@ pub(super) fn decode(src: &mut &[u8], len: usize) -> io::Result<Vec<u8>> {
         .zip(uncompressed_sizes)
         .map(|(compressed_size, uncompressed_size)| {
             let buf = split_off(src, compressed_size)?;
-            super::decode(buf, uncompressed_size)
+            let chunk = super::decode(buf, uncompressed_size)?;
+
+            if chunk.len() == uncompressed_size {
+                Ok(chunk)
+            } else {
+                Err(io::Error::new(
+                    io::ErrorKind::InvalidData,
+                    "stripe chunk size mismatch",
+                ))
+            }
         })
         .collect::<io::Result<_>>()?;
 
@@ -65,6 +74,22 @@ fn split_off<'a>(src: &mut &'a [u8], len: usize) -> io::Result<&'a [u8]> {
 #[cfg(test)]
 mod tests {
     use super::*;
+
+    #[test]
+    fn test_decode_with_chunk_size_mismatch() {
+        let src = [
+            0x01, // chunk count = 1
+            0x05, // compressed sizes[0] = 5
+            0x20, // chunks[0].flags = CAT
+            0x03, // chunks[0].uncompressed len = 3
+            b'a', b'b', b'c', // chunks[0].payload
+        ];
+
+        assert!(matches!(
+            decode(&mut &src[..], 2),
+            Err(e) if e.kind() == io::ErrorKind::InvalidData
+        ));
+    }
 
     #[test]
     fn test_read_chunk_count() -> io::Result<()> {
